@@ -333,6 +333,10 @@ func init() {
 			return nil
 		},
 		"verifTier": func(in *Interp, fr *frame, a []value) value { return uint64(in.cfg.Tier) },
+		// strict (non-forking) boolean connectives for oracles
+		"verifAnd":     func(in *Interp, fr *frame, a []value) value { return in.and(a[0], a[1]) },
+		"verifOr":      func(in *Interp, fr *frame, a []value) value { return in.or(a[0], a[1]) },
+		"verifImplies": func(in *Interp, fr *frame, a []value) value { return in.or(in.not(a[0]), a[1]) },
 		"verifName": func(in *Interp, fr *frame, a []value) value {
 			return fmt.Sprintf("%s%d", in.concStr(a[0], "verifName"), in.concInt(a[1], "verifName"))
 		},
